@@ -326,6 +326,6 @@ func init() {
 			"executions per configuration are capped (see counters); a capped configuration is reported as such, not as exhaustive",
 		},
 		Flavour: "inst-ctl", QuickBudgetS: 240, ThoroughBudgetS: 1800,
-		Spaces: func(tier string) []*core.Space { return []*core.Space{c09Space(tier)} },
+		Spaces: func(tier string) []*core.Space { return []*core.Space{c09Space(tier), racePassSpace("c09", 2)} },
 	})
 }
